@@ -99,10 +99,36 @@ def one_call(c, cid):
     return evs + log + [ret]
 
 
+def obs_call(c, cid):
+    """real dinucleotide_shuffle references; per-example digests of attributions and of the references used"""
+    from tangermeme.ersatz import dinucleotide_shuffle
+    model = Rec([]); model.R = 0
+    gen = torch.Generator().manual_seed(77)
+    pool = {}
+    for e in c["ex"]:
+        g = torch.Generator().manual_seed(1000 + e)
+        idx = torch.randint(0, 4, (12,), generator=g)
+        pool[e] = torch.nn.functional.one_hot(idx, 4).T.double()
+    X = torch.stack([pool[e] for e in c["ex"]])
+    model.l1 = torch.nn.Linear(4 * 12, 3).double()
+    with torch.no_grad():
+        model.l1.weight.copy_(torch.randint(-2, 3, model.l1.weight.shape, generator=gen).double()); model.l1.bias.zero_()
+    ev = dict(ev="obs", id=cid, ex=c["ex"], key=c["key"], dig=[], rdig=[])
+    try:
+        a, r = deep_lift_shap(model, X, target=c["target"], batch_size=c["B"], references=dinucleotide_shuffle, n_shuffles=c["S"],
+                              return_references=True, hypothetical=c["hyp"], raw_outputs=c["raw"], device="cpu", random_state=c["R"])
+        ev["st"] = "ok"
+        ev["dig"] = [base.tdig(a[i]) for i in range(a.shape[0])]
+        ev["rdig"] = [base.tdig(r[i]) for i in range(r.shape[0])]
+    except Exception as e:
+        ev["st"] = "err"
+    return [ev]
+
+
 def handler(case):
     evs = []
     for (cid, c) in case["calls"]:
-        evs += one_call(c, cid)
+        evs += obs_call(c, cid) if c.get("obs") else one_call(c, cid)
     return {"events": evs}
 
 
